@@ -36,6 +36,7 @@ pub fn guarded<T>(f: impl FnOnce() -> T) -> Result<T, String> {
 fn run_script(sc: &Value, id: usize, out: Out) {
     let fam = sc["fam"].as_str().unwrap_or("");
     tj::FORDER.with(|f| f.set(sc.get("forder").and_then(|v| v.as_bool()).unwrap_or(false)));
+    tj::NEGSTRIDE.with(|f| f.set(sc.get("negstride").and_then(|v| v.as_bool()).unwrap_or(false)));
     match fam {
         "arena" => arena::run(sc, id, out),
         "iter" => arena::run_iter(sc, id, out),
